@@ -174,7 +174,7 @@ fn case() -> BoxedStrategy<Case> {
         prop::collection::vec(proto_id(), 0..5),
         prop::collection::vec(alg_id(), 0..5),
         prop::collection::vec(name(), 0..3),
-        0u8..32,
+        prop_oneof![2 => 0u8..32, 1 => any::<u8>()],
         prop_oneof![2 => Just(0u16), 1 => any::<u16>()],
         prop::option::weighted(0.3, name()),
         prop::option::weighted(0.3, any::<u16>()),
@@ -196,7 +196,7 @@ fn case() -> BoxedStrategy<Case> {
         prop::collection::vec(prop::collection::vec(any::<u8>(), 0..120), 0..11),
         prop::option::weighted(0.3, name()),
         prop::option::weighted(0.3, any::<u16>()),
-        0u8..4,
+        prop_oneof![2 => 0u8..4, 1 => any::<u8>().prop_map(|b| b & 0xE3)],
         prop_oneof![2 => Just(0u16), 1 => any::<u16>()],
         prop::collection::vec(name(), 0..2),
     )
@@ -286,8 +286,13 @@ fn run_server(case: &Case) -> ServerObs {
             let Ok(mut io) = tls::connector().connect(tls::localhost(), c_io).await else {
                 return (true, None, None);
             };
-            if io.write_all(&request).await.is_err() || io.flush().await.is_err() {
-                return (false, None, None);
+            // bits 5..7 of `extra`: the request leaves in pieces of 1/2/3/5/7/9/13 bytes (separate TLS records), so
+            // the server's record parser sees ids and lengths split across reads
+            let piece = [usize::MAX, 1, 2, 3, 5, 7, 9, 13][(*extra >> 5) as usize];
+            for part in request.chunks(piece.min(request.len().max(1))) {
+                if io.write_all(part).await.is_err() || io.flush().await.is_err() {
+                    return (false, None, None);
+                }
             }
             let got = read_message(&mut io).await;
             let export = match (p, a) {
@@ -494,8 +499,11 @@ fn run_client(case: &Case) -> ClientObs {
             };
             let request = read_message(&mut io).await;
             let export = tls::export(io.get_ref().1, *proto, *alg);
-            let _ = io.write_all(&response).await;
-            let _ = io.flush().await;
+            let piece = [usize::MAX, 1, 2, 3, 5, 7, 9, 13][(*extra >> 5) as usize];
+            for part in response.chunks(piece.min(response.len().max(1))) {
+                let _ = io.write_all(part).await;
+                let _ = io.flush().await;
+            }
             let _ = io.shutdown().await;
             (false, Some(request), export)
         };
